@@ -15,12 +15,14 @@ import secrets
 import socket
 
 from dotenv import load_dotenv
-from flask import Flask, request, Response  # type: ignore
+from flask import Flask, make_response, request, Response  # type: ignore
 from flask_login import LoginManager
 from flask_socketio import SocketIO
 from werkzeug.routing import BaseConverter, Map  # type: ignore
 from werkzeug.middleware.proxy_fix import ProxyFix
 from flask_jwt_extended import JWTManager
+from sqlalchemy.exc import IntegrityError
+from sqlalchemy.orm.exc import ObjectDeletedError, StaleDataError
 from netifaces import interfaces, ifaddresses, AF_INET
 
 from dashlive.server.models.all import create_all_tables
@@ -176,6 +178,18 @@ def create_app(config: JsonObject | None = None,
     @login_manager.user_loader
     def user_lookup_callback(username: str) -> User | None:
         return User.get_one(username=username)
+
+    @app.errorhandler(IntegrityError)
+    @app.errorhandler(StaleDataError)
+    @app.errorhandler(ObjectDeletedError)
+    def database_conflict(err: Exception) -> Response:
+        """
+        The rows that this request was working on have been changed or
+        removed by a request that was served at the same time
+        """
+        logging.warning('Conflict with another request: %s', err)
+        db.session.rollback()
+        return make_response('Conflict with another request', 409)
 
     with app.app_context():
         create_all_tables()
